@@ -68,7 +68,8 @@ pub fn check_tree(ctx: &Ctx, c: &Case, count: bool) -> Verdict {
     paths.retain(|p| !p.contains('#') && !p.contains('?'));
     paths.sort(); paths.dedup();
     // Origins whose host is the request's own Host (another port, another scheme, other letter case) are cross-origin requests like any other
-    let fixed_variants: [(&str, &str); 9] = [
+    let fixed_variants: [(&str, &str); 10] = [
+        ("preflight-for-header-names-with-digits-and-punctuation", "Origin: https://app.example\r\nAccess-Control-Request-Method: DELETE\r\nAccess-Control-Request-Headers: x-amz-content-sha256, x_request_id, x-api.version, X-B3-TraceId, if-match\r\n"),
         ("origin-on-the-host-of-the-request", "Origin: http://localhost:3000\r\n"),
         ("preflight-from-the-host-of-the-request", "Origin: https://LOCALHOST\r\nAccess-Control-Request-Method: PUT\r\nAccess-Control-Request-Headers: X-Custom, Content-Type\r\n"),
         ("multirange", "Range: bytes=0-0, 2-3\r\n"),
@@ -135,15 +136,15 @@ pub fn check_tree(ctx: &Ctx, c: &Case, count: bool) -> Verdict {
                     if o.get("Access-Control-Allow-Origin") != Some(sent_origin) { problems.push(("options-without-allow-origin-grant".into(), format!("OPTIONS {}: Access-Control-Allow-Origin {:?}", tag, o.get("Access-Control-Allow-Origin")))); break 'outer; }
                     if o.get("Access-Control-Allow-Credentials") != Some("true") { problems.push(("options-without-credentials-grant".into(), format!("OPTIONS {}", tag))); break 'outer; }
                 }
-                if *vname == "preflight-method-only" && o.get("Access-Control-Allow-Methods") != Some("PUT") { problems.push(("preflight-methods-grant-wrong".into(), format!("OPTIONS {}: Access-Control-Allow-Methods {:?}", tag, o.get("Access-Control-Allow-Methods")))); break 'outer; }
-                if *vname == "preflight-headers-only" && o.get("Access-Control-Allow-Headers").map(|v| v.to_lowercase()) != Some("x-custom, content-type".to_string()) { problems.push(("preflight-headers-grant-wrong".into(), format!("OPTIONS {}: Access-Control-Allow-Headers {:?}", tag, o.get("Access-Control-Allow-Headers")))); break 'outer; }
-                if *vname == "preflight" || *vname == "preflight-from-the-host-of-the-request" {
-                    if o.get("Access-Control-Allow-Methods") != Some("PUT") { problems.push(("preflight-methods-grant-wrong".into(), format!("OPTIONS {}: Access-Control-Allow-Methods {:?}", tag, o.get("Access-Control-Allow-Methods")))); break 'outer; }
-                    if o.get("Access-Control-Allow-Headers").map(|v| v.to_lowercase()) != Some("x-custom, content-type".to_string()) { problems.push(("preflight-headers-grant-wrong".into(), format!("OPTIONS {}: Access-Control-Allow-Headers {:?}", tag, o.get("Access-Control-Allow-Headers")))); break 'outer; }
-                }
+                // whatever method / header names the preflight asks for are granted as asked (the default configuration echoes them; header names are tokens:
+                // letters, digits and ! # $ % & ' * + - . ^ _ ` | ~)
+                let sent_acrm = extra.lines().find_map(|l| l.strip_prefix("Access-Control-Request-Method: "));
+                let sent_acrh = extra.lines().find_map(|l| l.strip_prefix("Access-Control-Request-Headers: "));
+                if let Some(m) = sent_acrm { if o.get("Access-Control-Allow-Methods") != Some(m) { problems.push(("preflight-methods-grant-wrong".into(), format!("OPTIONS {}: Access-Control-Allow-Methods {:?} where {:?} was requested", tag, o.get("Access-Control-Allow-Methods"), m))); break 'outer; } }
+                if let Some(h) = sent_acrh { if o.get("Access-Control-Allow-Headers").map(|v| v.to_lowercase()) != Some(h.to_lowercase()) { problems.push(("preflight-headers-grant-wrong".into(), format!("OPTIONS {}: Access-Control-Allow-Headers {:?} where {:?} was requested", tag, o.get("Access-Control-Allow-Headers"), h))); break 'outer; } }
                 let nt = path != "/";
                 *classes.entry(match &sel { Selected::File { rule, .. } => match *rule { "dir-index" => "dir-index", "html-fallback" => "html-fallback", "root-index" => "root-index", "asset" => "asset-file", _ => "file" }, Selected::BuiltIn(_) => "built-in", _ => "?" }).or_insert(0) += 1;
-                *classes.entry(match *vname { "plain" => "variant-plain", "origin" => "variant-origin", "preflight" => "variant-preflight", "multirange" => "variant-multirange", "preflight-method-only" => "variant-preflight-method-only", "preflight-headers-only" => "variant-preflight-headers-only", "vocabulary" => "variant-vocabulary-headers", "origin-on-the-host-of-the-request" | "preflight-from-the-host-of-the-request" => "variant-origin-on-the-request's-own-host", _ => "variant-range" }).or_insert(0) += 1;
+                *classes.entry(match *vname { "plain" => "variant-plain", "origin" => "variant-origin", "preflight" => "variant-preflight", "multirange" => "variant-multirange", "preflight-method-only" => "variant-preflight-method-only", "preflight-headers-only" => "variant-preflight-headers-only", "vocabulary" => "variant-vocabulary-headers", "preflight-for-header-names-with-digits-and-punctuation" => "variant-preflight-token-names", "origin-on-the-host-of-the-request" | "preflight-from-the-host-of-the-request" => "variant-origin-on-the-request's-own-host", _ => "variant-range" }).or_insert(0) += 1;
                 if legacy { *classes.entry("legacy-entry").or_insert(0) += 1; }
                 if count && nt {
                     ctx.nontrivial.borrow_mut().insert(hash64(&(hash64(&format!("{:?}", c.tree)), path.clone(), *vname, legacy)));
